@@ -484,8 +484,10 @@ func (q *SendType) inferModality(labelledTypesEnv LabelledTypesEnv, usedLabels m
 		return q.Mode
 	}
 
-	leftUsedLabel := copyMap(usedLabels)
-	leftMode := q.Left.inferModality(labelledTypesEnv, leftUsedLabel)
+	// The labels visited so far are shared between the two sides: a type name that has already
+	// been looked into cannot contribute a different mode the second time, and looking into it
+	// again for every path makes the inference exponential in the depth of the definitions
+	leftMode := q.Left.inferModality(labelledTypesEnv, usedLabels)
 	rightMode := q.Right.inferModality(labelledTypesEnv, usedLabels)
 
 	commonMode := commonMode(leftMode, rightMode)
@@ -506,8 +508,10 @@ func (q *ReceiveType) inferModality(labelledTypesEnv LabelledTypesEnv, usedLabel
 		return q.Mode
 	}
 
-	leftUsedLabel := copyMap(usedLabels)
-	leftMode := q.Left.inferModality(labelledTypesEnv, leftUsedLabel)
+	// The labels visited so far are shared between the two sides: a type name that has already
+	// been looked into cannot contribute a different mode the second time, and looking into it
+	// again for every path makes the inference exponential in the depth of the definitions
+	leftMode := q.Left.inferModality(labelledTypesEnv, usedLabels)
 	rightMode := q.Right.inferModality(labelledTypesEnv, usedLabels)
 
 	commonMode := commonMode(leftMode, rightMode)
@@ -524,8 +528,8 @@ func (q *SelectLabelType) inferModality(labelledTypesEnv LabelledTypesEnv, usedL
 
 	var commonModes []Modality
 	for _, branch := range q.Branches {
-		usedLabelsCopy := copyMap(usedLabels)
-		branchMode := branch.SessionType.inferModality(labelledTypesEnv, usedLabelsCopy)
+		// the visited labels are shared between the branches (see SendType.inferModality)
+		branchMode := branch.SessionType.inferModality(labelledTypesEnv, usedLabels)
 		commonModes = append(commonModes, branchMode)
 	}
 
@@ -543,8 +547,8 @@ func (q *BranchCaseType) inferModality(labelledTypesEnv LabelledTypesEnv, usedLa
 
 	var commonModes []Modality
 	for _, branch := range q.Branches {
-		usedLabelsCopy := copyMap(usedLabels)
-		branchMode := branch.SessionType.inferModality(labelledTypesEnv, usedLabelsCopy)
+		// the visited labels are shared between the branches (see SendType.inferModality)
+		branchMode := branch.SessionType.inferModality(labelledTypesEnv, usedLabels)
 		commonModes = append(commonModes, branchMode)
 	}
 
